@@ -89,6 +89,11 @@ def oracle_verdict(o):
         if o.get("prefix") == "BAD":
             return "process-kill image does not contain the durable state of the writer model (a sync the model performs did not happen)"
         return None
+    if o.get("kind") == "L":
+        if o.get("second") == "BAD":
+            return ("two lives: after reopening a crash image for append, appending completed saves and closing, the next "
+                    "reopen does not return (recovered prefix ++ the new saves) — stale bytes behind the recovered prefix were not cleared")
+        return None
     if o.get("kind") == "T":
         if bad:
             return "truncated tail: data returned without error is not (synced records ++ whole prefix of the unsynced records)"
@@ -116,7 +121,7 @@ def oracle_verdict(o):
 
 # ----------------------------------------------------------------------------- case files
 
-CASE_TAGS = ("READ", "M", "Z", "K", "T")
+CASE_TAGS = ("READ", "M", "Z", "K", "T", "L")
 
 
 def split_blocks(text):
@@ -209,7 +214,14 @@ def run_wal_cases(d, text, tag, timeout=3000, jobs=JOBS):
     r1 = run_parallel(["%s observe wal %s %s.impl" % (lib.BUILD / H, n, n) for n in names], d, timeout)
     TIMES["observe"] += time.time() - t0
     t0 = time.time()
-    r2 = run_parallel(["%s wal %s %s.model %s.oracle" % (lib.BUILD / R, n, n, n) for n in names], d, timeout)
+    # the real code's second-life directories (two-life cases) are appended to what the model reads
+    for n in names:
+        extra = d / (n + ".impl.extra")
+        with open(d / (n + ".m"), "w") as f:
+            f.write((d / n).read_text())
+            if extra.exists():
+                f.write(extra.read_text())
+    r2 = run_parallel(["%s wal %s.m %s.model %s.oracle" % (lib.BUILD / R, n, n, n) for n in names], d, timeout)
     TIMES["model"] += time.time() - t0
     for (rc, out), n in list(zip(r1, names)) + list(zip(r2, names)):
         if rc != 0:
@@ -339,7 +351,7 @@ def symbolic(block, case):
                     return "MUT T %d %d %d %s %s" % (block.real_index_after(A["nops"]), block.real_index_after(B["nops"]),
                                                      int(fs[6]) - synced, fs[3], fs[4])
             return None
-        if fs[0] == "Z":
+        if fs[0] in ("Z", "L"):
             ids = list(block.dirs)
             bi = ids.index(fs[2])
             B = block.dirs[fs[2]]
@@ -358,6 +370,8 @@ def symbolic(block, case):
             if fs[6] != "-":
                 for s in fs[6].split(","):
                     mask |= 1 << (int(s) - synced // 512)
+            if fs[0] == "L":
+                return "MUT L %d %d %d %s %s %s %s" % (a, b, mask, fs[3], fs[4], fs[7], fs[8])
             return "MUT Z %d %d %d %s %s" % (a, b, mask, fs[3], fs[4])
     except Exception:
         return None
@@ -408,7 +422,7 @@ def retarget(mut, removed):
             return None
         if op > removed:
             fs[2] = str(op - 1)
-    elif fs[1] in ("Z", "T"):
+    elif fs[1] in ("Z", "T", "L"):
         a, b = int(fs[2]), int(fs[3])
         if removed in (a, b):
             return None
@@ -838,9 +852,11 @@ def run(ctx):
                     stats["kill_images"] += 1
                 if kind == "T":
                     stats["truncation_images"] += 1
+                if kind == "L":
+                    stats["two_life_scenarios"] += 1
                 if kind == "READ" and o.get("spec") == "ok":
                     stats["reads_checked_against_spec_run"] += 1
-                if kind in ("READ", "K", "T") or "err:" in v or (kind == "Z" and "repair" in v):
+                if kind in ("READ", "K", "T", "L") or "err:" in v or (kind == "Z" and "repair" in v):
                     stats["nontrivial"] += 1
                 ov = oracle_verdict(o)
                 if ov == "known:" + FINDING:
